@@ -91,6 +91,19 @@ func (s *Translator) buildMultiPartQuery(singlePartQuery *cypher.SinglePartQuery
 			nextCTE.Query.Body = inlineSelect
 		}
 
+		// A with clause may order and cut the rows it hands to the next part
+		if len(part.SortItems) > 0 {
+			nextCTE.Query.OrderBy = part.SortItems
+		}
+
+		if part.Skip != nil {
+			nextCTE.Query.Offset = part.Skip
+		}
+
+		if part.Limit != nil {
+			nextCTE.Query.Limit = part.Limit
+		}
+
 		multipartCTEChain = append(multipartCTEChain, nextCTE)
 	}
 
